@@ -185,48 +185,6 @@ theorem fault_safe (c : Cfg) (d : Option Dep) (s : Step) (o : StepOut) (h : step
       · simp [hfw, hres, hdep]
       · simp [hfn, hres]
 
-/-- **C06 (a call that returns ok has its effect)** — after a successful `Initialize` the Deployment is under rollout
-    control (paused, `Recreate`, control-info present); after a successful `Finalize` of a claimed Deployment the
-    control-info is gone and, with `batchPartition = nil`, so are the strategy annotation and the pause; a
-    `Finalize` of an unclaimed Deployment changes nothing.  (`UpgradeBatch`: `upgradeBatch_suffices`.) -/
-theorem ok_has_effect (c : Cfg) (d : Option Dep) (s : Step) (o : StepOut) (h : step c d s = .val o) :
-    okHasEffect s d o = true := by
-  unfold okHasEffect
-  split
-  · rename_i hok
-    cases hcall : s.call
-    · have hc : s.call ≠ .submit := by rw [hcall]; decide
-      rcases ctrl_step_cases c d s o hc h with ⟨_, hr, _⟩ | ⟨_, _, _, _, hr⟩ | ⟨d0, r, hd, _, _, hrest⟩
-      · rw [hr] at hok; cases hok
-      · have := hr.mp hok; rw [hcall] at this; cases this
-      · subst hd
-        have hw : writeOf c.rel s d0 = ctrlInitialize d0 := by simp [writeOf, hcall]
-        rw [hw] at hrest
-        rcases hrest with ⟨hn, _, hdep, _⟩ | ⟨d', _, _, hres, _⟩ | ⟨d', hsome, _, _, hdep, _⟩
-        · simp [hdep, ctrlInitialize_none hn]
-        · rw [hres] at hok; cases hok
-        · obtain ⟨_, hd'⟩ := ctrlInitialize_some hsome
-          subst hd'
-          simp [hdep, isUnderRolloutControl]
-    · cases d <;> cases o.dep <;> rfl
-    · have hc : s.call ≠ .submit := by rw [hcall]; decide
-      rcases ctrl_step_cases c d s o hc h with ⟨_, hr, _⟩ | ⟨_, hd, hdep, _⟩ | ⟨d0, r, hd, _, _, hrest⟩
-      · rw [hr] at hok; cases hok
-      · subst hd; simp [hdep]
-      · subst hd
-        have hw : writeOf c.rel s d0 = ctrlFinalize d0 s.bpNil := by simp [writeOf, hcall]
-        rw [hw] at hrest
-        rcases hrest with ⟨hn, _, hdep, _⟩ | ⟨d', _, _, hres, _⟩ | ⟨d', hsome, _, _, hdep, _⟩
-        · simp [hdep, ctrlFinalize_none hn]
-        · rw [hres] at hok; cases hok
-        · obtain ⟨hcl, hd'⟩ := ctrlFinalize_some hsome
-          subst hd'
-          simp only [hdep, hcl, if_true]
-          unfold finalized
-          cases s.bpNil <;> simp
-    · cases d <;> cases o.dep <;> rfl
-  · rfl
-
 /-- **frame** — a controller call never touches the size, the template, the in-progress annotation or anything
     outside the model and issues at most one write; an admitted user update never touches the control-info, the
     control label or the extra-status annotation. -/
@@ -660,6 +618,76 @@ theorem finalize_restores_user_strategy_full_FALSE_recreate :
        roundTripFull exRecreate [mk .initialize] (mk .finalize 0 true) (some dl) o = false) := by
   refine ⟨by decide +kernel, by decide +kernel, ?_⟩
   refine ⟨exRecreateClaimed, { res := .ok, dep := some exRecreateEnd, writes := 1, obs := none }, ?_⟩
+  decide +kernel
+
+/-- **C06 (a call that returns ok has its effect)** — after a successful `Initialize` the Deployment is under rollout
+    control (paused, `Recreate`, control-info present); after a successful `Finalize` of a paused Deployment the
+    control-info is gone and, with `batchPartition = nil`, so are the strategy annotation and the pause — except in
+    the region of the open finding `unclaimedFinalize` (complete `Finalize`, no control-info, yet paused or parked),
+    where the full statement is false (`ok_has_effect_full_FALSE`).  (`UpgradeBatch`: `upgradeBatch_suffices`.) -/
+theorem ok_has_effect_partial (c : Cfg) (d : Option Dep) (s : Step) (o : StepOut) (h : step c d s = .val o) :
+    okHasEffectPartial s d o = true := by
+  unfold okHasEffectPartial
+  by_cases hg : guardUnclaimedStep s d = true
+  · simp [hg]
+  have hg' : guardUnclaimedStep s d = false := by simpa using hg
+  simp only [hg', Bool.false_or]
+  unfold okHasEffect
+  split
+  · rename_i hok
+    cases hcall : s.call
+    · have hc : s.call ≠ .submit := by rw [hcall]; decide
+      rcases ctrl_step_cases c d s o hc h with ⟨_, hr, _⟩ | ⟨_, _, _, _, hr⟩ | ⟨d0, r, hd, _, _, hrest⟩
+      · rw [hr] at hok; cases hok
+      · have := hr.mp hok; rw [hcall] at this; cases this
+      · subst hd
+        have hw : writeOf c.rel s d0 = ctrlInitialize d0 := by simp [writeOf, hcall]
+        rw [hw] at hrest
+        rcases hrest with ⟨hn, _, hdep, _⟩ | ⟨d', _, _, hres, _⟩ | ⟨d', hsome, _, _, hdep, _⟩
+        · simp [hdep, ctrlInitialize_none hn]
+        · rw [hres] at hok; cases hok
+        · obtain ⟨_, hd'⟩ := ctrlInitialize_some hsome
+          subst hd'
+          simp [hdep, isUnderRolloutControl]
+    · cases d <;> cases o.dep <;> rfl
+    · have hc : s.call ≠ .submit := by rw [hcall]; decide
+      rcases ctrl_step_cases c d s o hc h with ⟨_, hr, _⟩ | ⟨_, hd, hdep, _⟩ | ⟨d0, r, hd, _, _, hrest⟩
+      · rw [hr] at hok; cases hok
+      · subst hd; simp [hdep]
+      · subst hd
+        have hw : writeOf c.rel s d0 = ctrlFinalize d0 s.bpNil := by simp [writeOf, hcall]
+        rw [hw] at hrest
+        rcases hrest with ⟨hn, _, hdep, _⟩ | ⟨d', _, _, hres, _⟩ | ⟨d', hsome, _, _, hdep, _⟩
+        · -- nothing written: the Deployment is not claimed
+          have hcl := ctrlFinalize_none hn
+          simp only [hdep]
+          cases hpa : d0.paused
+          · simp
+          · simp only [if_true]
+            have hcn : d0.control = .none := by
+              simp only [claimed, hpa, Bool.and_true, bne_eq_false_iff_eq] at hcl; exact hcl
+            have hbp : s.bpNil = false := by
+              cases hb : s.bpNil
+              · rfl
+              · simp [guardUnclaimedStep, hcall, hb, guardUnclaimed, hcl, hpa] at hg'
+            simp [hcn, hbp]
+        · rw [hres] at hok; cases hok
+        · obtain ⟨hcl, hd'⟩ := ctrlFinalize_some hsome
+          have hpa : d0.paused = true := by
+            simp only [claimed, Bool.and_eq_true] at hcl; exact hcl.2
+          subst hd'
+          simp only [hdep, hpa, if_true]
+          unfold finalized
+          cases s.bpNil <;> simp
+    · cases d <;> cases o.dep <;> rfl
+  · rfl
+
+/-- **finding `unclaimedFinalize`, step form (C06 full strength is FALSE)** — a complete `Finalize` of the parked
+    but unclaimed Deployment returns ok and has no effect at all. -/
+theorem ok_has_effect_full_FALSE :
+    step exCfg (some exParked) (mk .finalize 1 true) = .val { res := .ok, dep := some exParked, writes := 0, obs := none } ∧
+    guardUnclaimedStep (mk .finalize 1 true) (some exParked) = true ∧
+    okHasEffect (mk .finalize 1 true) (some exParked) { res := .ok, dep := some exParked, writes := 0, obs := none } = false := by
   decide +kernel
 
 /-! ## non-vacuity (tests on literals, not the ∀ claims) -/
